@@ -6,7 +6,7 @@ n = os.environ.get("BASELINE_JOBS", "8")
 subprocess.run(["/venv/bin/python", "-m", "pytest", "-q", "-p", "no:cacheprovider", "--timeout=900",
                 "--continue-on-collection-errors", "-n", n, f"--junitxml={out}"], cwd="/repo",
                stdout=subprocess.DEVNULL, stderr=subprocess.DEVNULL)
-for junk in ("material.mtl", "material_0.png", "shape", "sphere.obj"):  # by-products the suite leaves in its cwd
+for junk in ("material.mtl", "material_0.png", "shape", "sphere.obj", "models/material.mtl", "models/material_0.png", "models/sphere.obj", "models/shape"):  # by-products the suite leaves in its cwd
     try:
         os.remove(os.path.join("/repo", junk))
     except OSError:
